@@ -60,12 +60,13 @@ func sndSnapshot(a *Association) sndSnap {
 }
 
 type sndRecorder struct {
-	mu      *sync.Mutex
-	w       *bufio.Writer
-	n       *int
-	kinds   map[string]int
-	pre     [2]sndSnap
-	skipped *int
+	mu       *sync.Mutex
+	w        *bufio.Writer
+	n        *int
+	kinds    map[string]int
+	pre      [2]sndSnap
+	skipped  *int
+	injected bool // also record packets that fail the package's checksum / decode (they must be no-ops)
 }
 
 func (r *sndRecorder) before(s *sim, ev *simEvent) {
